@@ -26,10 +26,20 @@ def explore(arg):
         return cfg["arg"]
 
     def compare(db, cfg, hist):
+        for drop in [None] + ([P["drop_executor"]] if P.get("drop_executor") else []):
+            compare1(db, cfg, hist, drop)
+
+    def compare1(db, cfg, hist, drop):
+        # drop: name of an executor the comparing scheduler does not have (the history itself ran with it)
+        def lacking(env):
+            if drop:
+                env.hooks.append(lambda env_, s: s.executors.pop(drop, None))
+            return env
+
         # dry run on copy A
         a = crash.copy_db(db, "c28a")
         arg_ = prepare(cfg)
-        env = evloop.Env([], db_path=a, id_salt=50)
+        env = lacking(evloop.Env([], db_path=a, id_salt=50))
         try:
             dry = env.run(E.T(P["root"])(arg_), dryrun=True)
             dry_submits = len(env.ctl.submits)
@@ -40,7 +50,7 @@ def explore(arg):
         # real run on copy B
         b = crash.copy_db(db, "c28b")
         arg_ = prepare(cfg)
-        env = evloop.Env([], db_path=b, id_salt=51)
+        env = lacking(evloop.Env([], db_path=b, id_salt=51))
         try:
             real = env.run(E.T(P["root"])(arg_))
             real_submits = len(env.ctl.submits)
@@ -49,8 +59,8 @@ def explore(arg):
             seams.remove_db(b)
         stats["pairs"] += 1
         stats["states"].add((c02.cfg_key(cfg), tuple(hist)))
-        case = {"program": prog, "history": [list(h) for h in hist]}
-        last = hist[-1][0] if hist else "init"
+        case = {"program": prog, "history": [list(h) for h in hist], "without_executor": drop}
+        last = (hist[-1][0] if hist else "init") + (f":without-{drop}" if drop else "")
         if dry_submits or dry_calls:
             viol.append((f"{prog}:dryrun-executes:last={last}", case, f"{prog} {hist}: dry run submitted {dry_submits} jobs, ran functions {dry_calls}"))
         if dry[0] == "dryrun-stop":
@@ -96,7 +106,7 @@ def run(ctx):
     from engine.common import check_harness_errors
 
     seams.template_db()
-    progs_ = ctx.pick(["chain", "catch", "file", "script"], list(c02.PROGRAMS))
+    progs_ = ctx.pick(["chain", "catch", "file", "script", "badexec"], list(c02.PROGRAMS))
     depth = ctx.pick(2, 3)
     work = [(p, None, depth) for p in progs_] + [(p, a, depth) for p in progs_ for a in c02.actions(p)]
     res = ctx.pmap(explore, ctx.rotate(work), chunksize=1)
